@@ -328,7 +328,7 @@ def _malform_versym(rng, case):
 def gen(ctx):
     rng = ctx.rng
     big = ctx.tier == 'thorough'
-    N = ctx.scale(260, 6000)
+    N = ctx.scale(260, 4000)
     cases = []
     for kind in ('verdef', 'verneed'):
         for _ in range(N):
@@ -526,7 +526,152 @@ def _first_diff(names, a, b):
     return None
 
 
+# ------------------------------------------------------------------ linker-made files of the pinned test corpus
+CORPUS_DIRS = ['test/testfiles_for_unittests', 'test/testfiles_for_readelf', 'test/testfiles_for_location_info',
+               'test/testfiles_for_dwarfdump']
+CORPUS_MAX = 72000
+
+
+def corpus(ctx):
+    """every version section of every small ELF file shipped with the library's tests (dense linker layout, real
+    names).  The abstract records are GUESSED from the bytes by an untrusted walker below; a case counts as in-domain
+    only when the Coq layout predicate accepts (image, guessed records), so a wrong guess can only lose a case."""
+    import os
+    from tools.lib.framework import REPO
+    from elftools.elf.elffile import ELFFile
+    out = []
+    seen = set()
+    for d in CORPUS_DIRS:
+        full = os.path.join(str(REPO), d)
+        if not os.path.isdir(full):
+            continue
+        for fn in sorted(os.listdir(full)):
+            p = os.path.join(full, fn)
+            if fn in seen or not os.path.isfile(p) or os.path.getsize(p) > CORPUS_MAX:
+                continue
+            try:
+                with open(p, 'rb') as f:
+                    elf = ELFFile(f)
+                    for i in range(elf.num_sections()):
+                        t = elf._get_section_header(i)['sh_type']
+                        if t in ('SHT_GNU_verdef', 'SHT_GNU_verneed', 'SHT_GNU_versym'):
+                            seen.add(fn)
+                            out.append(('file_' + t[8:], [d + '/' + fn, i]))
+            except Exception:
+                continue
+    return out
+
+
+def _guess_records(base, data, le, is64, shdrs, n):
+    """untrusted: read the records the way the STANDARD says (certified afterwards by the Coq predicate)"""
+    import struct
+    E = '<' if le else '>'
+    h = shdrs[n]
+
+    def cstr(off):
+        end = data.find(b'\0', off)
+        if end < 0:
+            raise ValueError('unterminated')
+        return data[off:end]
+    if base in ('verdef', 'verneed'):
+        stroff = shdrs[h[4]][1]
+        off = h[1]
+        out = []
+        for _ in range(h[5]):
+            if base == 'verdef':
+                version, flags, ndx, cnt, hsh, aux, nxt = struct.unpack_from(E + 'HHHHIII', data, off)
+            else:
+                version, cnt, file, aux, nxt = struct.unpack_from(E + 'HHIII', data, off)
+            auxs = []
+            ao = off + aux
+            for _ in range(cnt):
+                if base == 'verdef':
+                    name, anext = struct.unpack_from(E + 'II', data, ao)
+                    auxs.append([name, anext, cstr(stroff + name)])
+                else:
+                    ahash, aflags, other, name, anext = struct.unpack_from(E + 'IHHII', data, ao)
+                    auxs.append([ahash, aflags, other, name, anext, cstr(stroff + name)])
+                ao += anext
+            out.append([version, flags, ndx, hsh, aux, nxt, auxs] if base == 'verdef'
+                       else [version, file, aux, nxt, cstr(stroff + file), auxs])
+            off += nxt
+        return out
+    sy = shdrs[h[4]]
+    stroff = shdrs[sy[4]][1]
+    out = []
+    for i in range(h[2] // h[3]):
+        (v,) = struct.unpack_from(E + 'H', data, h[1] + i * h[3])
+        so = sy[1] + i * sy[3]
+        if is64:
+            name, info, other, shndx, value, size = struct.unpack_from(E + 'IBBHQQ', data, so)
+        else:
+            name, value, size, info, other, shndx = struct.unpack_from(E + 'IIIBBH', data, so)
+        out.append([[v & 0x7fff, v >> 15],
+                    [name, info >> 4, info & 15, other >> 5, (other >> 3) & 3, other & 7, shndx, value, size,
+                     cstr(stroff + name)]])
+    return out
+
+
+def _evaluate_files(ctx, cases):
+    import os
+    from tools.lib import sx
+    from tools.lib.framework import REPO
+    from elftools.elf.elffile import ELFFile
+    reqs = []
+    work = []
+    for kind, (rel, n) in cases:
+        base = kind[5:]
+        data = open(os.path.join(str(REPO), rel), 'rb').read()
+        elf = ELFFile(io.BytesIO(data))
+        le, is64 = elf.little_endian, elf.elfclass == 64
+        # header values as the library itself decodes them (header decoding is C01's subject)
+        shdrs = []
+        for i in range(elf.num_sections()):
+            hd = elf._get_section_header(i)
+            t = hd['sh_type']
+            shdrs.append([t if isinstance(t, int) else elf.structs.Elf_Shdr.subcons[1].encoding.get(t, 0),
+                          hd['sh_offset'], hd['sh_size'], hd['sh_entsize'], hd['sh_link'], hd['sh_info']])
+        try:
+            recs = _guess_records(base, data, le, is64, shdrs, n)
+        except Exception:
+            recs = []
+        idxs = sorted({0, 1, 2, 3, 4, 5, 6, 7, 8, 0x8002, 0x8004} |
+                      ({a[2] for e in recs for a in e[-1]} if base == 'verneed' else
+                       {e[2] for e in recs} if base == 'verdef' else set()))
+        if base == 'versym':
+            reqs.append(['versym', le, is64, data, shdrs, n, recs])
+        else:
+            reqs.append([base, le, is64, data, shdrs, n, recs, idxs])
+        work.append((base, data, n, idxs, recs))
+    answers = ctx.driver.batch(reqs)
+    for (kind, a), (base, data, n, idxs, recs), ans in zip(cases, work, answers):
+        wf = ans[0] == 1
+        if base == 'versym':
+            names = ['iter_symbols', 'num_symbols']
+            model, spec = [ans[1], ans[3]], [ans[2], ans[4]]
+            impl = _impl_versym(data, n)
+        else:
+            names = ['iter_versions', 'num_versions', 'get_version'] + (['has_indexes'] if base == 'verneed' else [])
+            model = [ans[1], ans[3], ans[5]] + ([ans[7]] if base == 'verneed' else [])
+            spec = [ans[2], ans[4], ans[6]] + ([ans[8]] if base == 'verneed' else [])
+            impl = _impl_chain(base, data, n, idxs)
+        ctx.bump('corpus_file_sections', kind + (':certified' if wf else ':not-certified'))
+        comp = _first_diff(names, sx.canon(impl), sx.canon(spec if wf else model))
+        ctx.record(kind, a, impl=impl, spec=spec if wf else model, model=model, in_domain=wf,
+                   nontrivial=len(recs) >= 2, key='%s/%s' % (base, comp or 'agree'))
+
+
 def evaluate(ctx, cases):
+    files = [c for c in cases if c[0].startswith('file_')]
+    if files:
+        _evaluate_files(ctx, files)
+    cases = [c for c in cases if not c[0].startswith('file_')]
+    # bounded batches keep the driver's request/answer texts small in the thorough tier
+    for i in range(0, len(cases), 1500):
+        _evaluate(ctx, cases[i:i + 1500])
+
+
+def _evaluate(ctx, cases):
     from tools.lib import sx
     drv = ctx.driver
     # ---- round 1: record bytes from the Coq spec encoders
